@@ -143,7 +143,7 @@ CLAIMED["C15"] = (
 CLAIMED["C02"] = (
     "Message passthrough: the real XxxMessage.create_message builders run symbolically against stub message objects generated "
     "at run time from the repository's *_pb2 DESCRIPTORs (proto2 presence / oneof / defaults / scalar type checks / required "
-    "fields); the stub tree is handed to the real XxxFactory.create_from_message readers. For 25 skeleton scenarios with "
+    "fields); the stub tree is handed to the real XxxFactory.create_from_message readers. For 24 skeleton scenarios with "
     "symbolic leaves plus obligations for optional data (first occurrences, virtual flag, environment / time / geo "
     "transformation, default-constructed obstacles, partially populated signal states, partial goal-lanelet tables) z3 proves "
     "that every real read back is the identical term and discrete content is identical. The stub is validated field by field "
